@@ -2,10 +2,10 @@
 # (context managers written as generators: the code before `yield` runs on entry, the `finally` part on exit)
 M = "rope.refactor.extract:"
 record("Node", fields={"lineno": "Int"})
-record("_FunctionInformationCollector", fields={"start": "Int", "end": "Int", "conditional": "Bool", "loop_depth": "Int"})
+record("_FunctionInformationCollector", fields={"start": "Int", "end": "Int", "conditional": "Bool", "post_conditional": "Bool", "loop_depth": "Int"})
 contract("_FunctionInformationCollector._handle_conditional_context", source=M + "_FunctionInformationCollector._handle_conditional_context",
-         params={"self": "_FunctionInformationCollector", "node": "Node"}, returns="Seq[NoneT]", modifies=["self.conditional"], raises={},
-         ensures=["self.conditional == old(self.conditional)", "len(result) == 1"],
+         params={"self": "_FunctionInformationCollector", "node": "Node"}, returns="Seq[NoneT]", modifies=["self.conditional", "self.post_conditional"], raises={},
+         ensures=["self.conditional == old(self.conditional)", "self.post_conditional == old(self.post_conditional)", "len(result) == 1"],
          note="leaving a conditional construct restores the context of the enclosing one (nested conditionals)")
 contract("_FunctionInformationCollector._handle_loop_context", source=M + "_FunctionInformationCollector._handle_loop_context",
          params={"self": "_FunctionInformationCollector", "node": "Node"}, returns="Seq[NoneT]", modifies=["self.loop_depth"], raises={},
